@@ -102,7 +102,7 @@ def parseSumTail : Nat → MTree → List Tok → Option (MTree × List Tok)
   | _+1, acc, toks => some (acc, toks)
 end
 
-/-- `start: sum` (the assignment form `NAME = sum` is not an expression) -/
+/-- `start: sum` (the assignment form `NAME = sum` is not an expression: `parseStmt` in `MadxAssign.lean`) -/
 def parse (toks : List Tok) : Option MTree :=
   match parseSum (4 * toks.length + 8) toks with
   | some (t, []) => some t
